@@ -28,6 +28,8 @@ def main (args : List String) : IO UInt32 := do
       | "extra" :: r => cur := { cur with extra := Driver.floats r }
       | "parts" :: r => cur := { cur with parts := Driver.floats r }
       | "ops" :: r => cur := { cur with words := r.toArray }
+      | "argv" :: r => cur := { cur with argv := r }
+      | "cfg" :: r => cur := { cur with cfg := r }
       | "aux" :: r => cur := { cur with aux := Driver.floats r }
       | "aux2" :: r => cur := { cur with aux2 := Driver.floats r }
       | ["run"] =>
